@@ -141,7 +141,9 @@ func InitEventSender(cfg *EventConfig) (S3EventSender, error) {
 
 func createEventSchema(ctx *fiber.Ctx, meta EventMeta, configId ConfigurationId) EventSchema {
 	path := strings.Split(ctx.Path(), "/")
-	bucket, object := path[1], strings.Join(path[2:], "/")
+	// the path aliases a buffer that is reused for other requests
+	// while the event is sent asynchronously: keep private copies
+	bucket, object := strings.Clone(path[1]), strings.Clone(strings.Join(path[2:], "/"))
 	acc := ctx.Locals("account").(auth.Account)
 
 	return EventSchema{
